@@ -109,6 +109,15 @@ def register(R):
             # request created: the permit is released by the request's on_done (A-CRT), not here
             out['request_created_no_release_here_and_callargs_from_the_creator'] = B(
                 len(rel) == 0 and len(done_set) == 0 and len(gm) == 1 and mk[0].kwargs.get('**') is gm[0].result)
+            # ... and the created request is attached to this transfer's coordinator (what its done() / result() rely on)
+            coords_ = [g.extra['env']['coordinator'] for g in gm if isinstance(g.extra['env'].get('coordinator'), Ref)]
+            okatt = False
+            if coords_:
+                hc = c.new.obj(coords_[0])
+                rq = hc.fields.get('_s3_request')
+                rq = rq.val if isinstance(rq, Opt) else rq
+                okatt = rq is made[0].result and hc.fields.get('_crt_future') is not None
+            out['the_created_request_is_attached_to_the_transfers_coordinator'] = B(bool(okatt))
         else:
             # construction failed after the acquire: on_done invoked directly, once, with the error
             sub_loops = [e for e in ft if e.kind == 'loop']
